@@ -62,6 +62,9 @@ package geom
 //@       + b * (roots[0] - b_over_3a) * (roots[0] - b_over_3a) + c * (roots[0] - b_over_3a) + d == 0.0
 //@     invariant[cardano1] len(roots) == 1 && i >= 1 ==> a * roots[0] * roots[0] * roots[0] + b * roots[0] * roots[0] + c * roots[0] + d == 0.0
 //@   assert[cardano_depressed] after "c := math.Cbrt(alpha) + math.Cbrt(beta)" : c * c * c + 3.0 * p * c + q == 0.0
+//@   assert[cardano_slice] after "roots = []float64{c}" :
+//@       a * (roots[0] - b_over_3a) * (roots[0] - b_over_3a) * (roots[0] - b_over_3a)
+//@       + b * (roots[0] - b_over_3a) * (roots[0] - b_over_3a) + old(coeff[1]) * (roots[0] - b_over_3a) + d == 0.0
 //@   assert[cardano_root] after "c := math.Cbrt(alpha) + math.Cbrt(beta)" :
-//@       coeff[3] * (c - b_over_3a) * (c - b_over_3a) * (c - b_over_3a) + coeff[2] * (c - b_over_3a) * (c - b_over_3a) + coeff[1] * (c - b_over_3a) + coeff[0] == 0.0
+//@       a * (c - b_over_3a) * (c - b_over_3a) * (c - b_over_3a) + b * (c - b_over_3a) * (c - b_over_3a) + old(coeff[1]) * (c - b_over_3a) + d == 0.0
 //@     invariant forall k int :: i <= k && k < len(roots) ==> roots[k] == loopold(roots[k])
